@@ -3,7 +3,6 @@ package cache
 import (
 	"context"
 	"net/netip"
-	"strings"
 	"time"
 
 	"github.com/miekg/dns"
@@ -754,7 +753,7 @@ func (s *Store) Purge(q dns.Question) {
 		// stored Questions, so the comparison has to match the
 		// hash's semantics or an entry cached for EXAMPLE.COM.
 		// would survive a purge of example.com.
-		if eq.Qtype == q.Qtype && eq.Qclass == q.Qclass && strings.EqualFold(eq.Name, q.Name) {
+		if eq.Qtype == q.Qtype && eq.Qclass == q.Qclass && equalNameASCIIFold(eq.Name, q.Name) {
 			hits = append(hits, located{positive: positive, key: key})
 		}
 		return true
